@@ -1,7 +1,7 @@
 (* Corechk.v — correspondence between the Layer-B machine and the recorded run of the real code.
    Core_corr compares, after every event of the recorded trace, the model's database with the
    snapshot of the real database, and monitors the environment assumptions (wf_trace). *)
-From Continuum Require Import Model.Base Model.VTable Model.Backfill Model.Core Proofs.CoreChainP Proofs.HierP.
+From Continuum Require Import Model.Base Model.VTable Model.Backfill Model.Core Proofs.CoreChainP Proofs.HierP Proofs.HierChainP.
 
 (* one activity row: id, transaction_id, (object class, object id, object_tx_id), same for target *)
 Record act := mkact { ac_id : Z; ac_tx : option Z;
@@ -94,27 +94,12 @@ Fixpoint wf_trace (g : cfg) (s : state) (evs : list ev) : bool :=
        end) && wf_trace g (step g s e) evs'
   end.
 
-(* hypotheses of the hierarchy theorem (Props/C03.v C03_hierarchy_pass_closes_superseded), evaluated at every flush
-   of a configuration with joined-table hierarchies: on the model state after the flush proper and before the
-   hierarchy pass every version of a subclass entity has its base-table row, keys are non-empty, and every
-   child-table row is right already or stale in the one way the pass repairs *)
-Fixpoint hier_hyps (g : cfg) (s : state) (evs : list ev) : bool :=
-  match evs with
-  | [] => true
-  | e :: evs' =>
-      (match e with
-       | Flush objs ents assoc =>
-           let mid := flush g s objs ents assoc in
-           match u_cur (s_uow mid) with
-           | Some T => pairedb g (d_vt (s_db mid)) && keys_nonemptyb (d_vt (s_db mid)) && staleb g T (d_vt (s_db mid))
-           | None => true
-           end
-       | _ => true
-       end) && hier_hyps g (step g s e) evs'
-  end.
-
+(* the hypothesis of the hierarchy theorem (Props/C03.v C03_reachable_hierarchy_chain) about the environment,
+   evaluated at every flush of a configuration with joined-table hierarchies: on the model state after the flush
+   proper every version of a subclass entity has its base-table row and keys are non-empty (Proofs/HierChainP.v
+   trace_pairedb) *)
 Definition hier_hyps_ok (g : cfg) (evs : list ev) : bool :=
-  no_hierb g || (one_baseb g && hier_hyps g state0 evs).
+  no_hierb g || (one_baseb g && trace_pairedb g state0 evs).
 
 Definition Core_corr (c : core_case) : bool :=
   negb (cc_exc c) &&
